@@ -245,6 +245,14 @@ impl Collector {
             // enumeration would only take time (formatting millions of reports)
             ABORT.store(true, Ordering::Relaxed);
         }
+        // simplest first: the retained example of a class is the shortest input / history
+        // (ties broken by the enumeration order, which is independent of thread scheduling)
+        let size = match &v.case {
+            Case::Input(b) => b.len() as u64,
+            Case::Ops { ops, .. } => ops.len() as u64,
+            Case::Text(t) => t.len() as u64,
+        };
+        let order = (size.min(0xffff) << 48) | (order & 0xffff_ffff_ffff);
         let mut m = self.map.lock().unwrap();
         let k = (v.sub.to_string(), v.class.clone());
         match m.get_mut(&k) {
